@@ -59,7 +59,7 @@ func c02Q2(r *core.R) {
 	}
 	info := m.info
 	wg := m.goOf("worker")
-	if wg == nil || wg.inLoop == nil {
+	if wg == nil || wg.loopStmt == nil {
 		r.Anchor("worker go statement in the spawning loop")
 		return
 	}
@@ -148,7 +148,7 @@ func c02Q2(r *core.R) {
 			}
 			continue
 		}
-		inLoop := pbfPerIteration(f.o, wg.inLoop, host.Decl.Body, true)
+		inLoop := pbfPerIterationStmt(f.o, wg.loopStmt, m, true)
 		defs := m.defsOf(f.o)
 		fresh := len(defs) == 1 && defs[0].kind == "assign" && c02FreshAlloc(m, defs[0].e, 0)
 		// used only by this go statement (besides its definition)
